@@ -949,6 +949,10 @@ pub struct C16Plan {
     /// prescribe an order, the effective values must be the same
     #[serde(default)]
     pub timeout_first: bool,
+    /// the builder first gets this (other) interval, then the timeout, then the final interval:
+    /// a value that was set and later replaced must leave no trace (0 = not done)
+    #[serde(default)]
+    pub replaced_interval_ms: u64,
     /// the (live, ping-answering) peer opens this many streams at once while the application
     /// accepts only one: more than stream_buffer_size + 1 of them fill the accept backlog
     #[serde(default)]
@@ -974,7 +978,13 @@ async fn run_c16_async(plan: C16Plan, sched: Sched, record: bool) -> Outcome {
     let zf = plan.zero_via_from_secs;
     let od = |x: u64| if x == 0 { if zf { OptionalDuration::from_secs(0) } else { OptionalDuration::NONE } } else { OptionalDuration::from(ms(x)) };
     // documented order: interval first, then timeout (so that T < I is clamped)
-    let opts = if plan.timeout_first { Options::new().keepalive_timeout(od(t_req)).keepalive_interval(od(i_ms)) } else { Options::new().keepalive_interval(od(i_ms)).keepalive_timeout(od(t_req)) };
+    let opts = if plan.replaced_interval_ms > 0 {
+        Options::new().keepalive_interval(od(plan.replaced_interval_ms)).keepalive_timeout(od(t_req)).keepalive_interval(od(i_ms))
+    } else if plan.timeout_first {
+        Options::new().keepalive_timeout(od(t_req)).keepalive_interval(od(i_ms))
+    } else {
+        Options::new().keepalive_interval(od(i_ms)).keepalive_timeout(od(t_req))
+    };
     let cfg = EpCfg::default();
     TASK_START_DELAY_MS.with(|c| c.set(plan.start_delay_ms));
     let mut s = setup(&cfg, opts, &plan.link, plan.weights, &sched, record, RxPolicy { ack_pushes: false, ack_req_connects: None }, Rc::new(RefCell::new(vec![])));
@@ -1065,7 +1075,7 @@ async fn run_c16_async(plan: C16Plan, sched: Sched, record: bool) -> Outcome {
     let pings: Vec<(u64, Duration)> = l.evs.iter().filter(|e| e.stage == Stage::Sent && e.from == 0 && matches!(&*e.w, Wire::Ping)).map(|e| (e.seq, e.t)).collect();
     let pongs: Vec<(u64, Duration)> = l.evs.iter().filter(|e| e.stage == Stage::Consumed && e.from == 1 && matches!(&*e.w, Wire::Pong)).map(|e| (e.seq, e.t)).collect();
     let te = s.task_end.borrow().clone();
-    let desc = format!("I={i_ms}ms T(requested)={t_req}ms T(effective)={t_ms}ms task started {d0:?} after construction, builder order: {}, peer opens {} streams at once, peer pings every {} ms, delays={:?} tail={:?} pings={} pongs={} task_end={:?}", if plan.timeout_first { "timeout first" } else { "interval first" }, plan.flood_connects, plan.peer_pings_ms, plan.delays, plan.tail, pings.len(), pongs.len(), te.as_ref().map(|t| (t.1.clone(), t.2)));
+    let desc = format!("I={i_ms}ms T(requested)={t_req}ms T(effective)={t_ms}ms task started {d0:?} after construction, builder order: {}, peer opens {} streams at once, peer pings every {} ms, delays={:?} tail={:?} pings={} pongs={} task_end={:?}", if plan.replaced_interval_ms > 0 { format!("interval {} ms, timeout, interval again", plan.replaced_interval_ms) } else if plan.timeout_first { "timeout first".to_string() } else { "interval first".to_string() }, plan.flood_connects, plan.peer_pings_ms, plan.delays, plan.tail, pings.len(), pongs.len(), te.as_ref().map(|t| (t.1.clone(), t.2)));
     o.note = desc.clone();
     // ---- disabled: no ping is sent and no timeout ever occurs
     if i_ms == 0 {
